@@ -1,5 +1,9 @@
 """C45 - Profiling and tracing events are balanced and well-nested (DESIGN 7/C45).
 
+Two program families.  (1) call-tree programs (below): functions and generators calling each other.
+(2) the "kinds" family (props/C45_kinds.py): one module with a code object of every kind that emits
+trace events, every decision read from a tape, tied to the code-generation model M_TraceGen.v.
+
 Random programs in a tiny statement language (calls, try/except, try/finally, raise, return,
 generators consumed fully / partially / closed / thrown into, recursion bounded by a depth
 argument) are rendered to ONE Python source text.  The same text is
@@ -9,28 +13,57 @@ argument) are rendered to ONE Python source text.  The same text is
   * interpreted by the small evaluator below into a CALL TREE, which the extracted Coq model
     (M_Trace.ev_cy / ev_py) turns into event sequences                              (model)
 """
-import json, os, threading
+import json, os, threading, random
 import cybuild
+try:
+    from props import C45_kinds
+except ImportError:
+    import C45_kinds
 
 _LOCK = threading.Lock()
 
 TITLE = "Profiling and tracing events are balanced and well-nested"
 EXTRACTS = ["Trace"]
-RULE = ("random programs over {call, try/except, try/finally, raise, return, yield, for-over-generator, "
+RULE = ("family 1: random programs over {call, try/except, try/finally, raise, return, yield, for-over-generator, "
         "partial next()+throw()+close(), close() of an unstarted generator, recursion with a depth budget <= 4}; "
         "one case = (program, build variant, hook); distinct by the program's call tree + variant + hook; "
-        "non-trivial = the executed call tree has >= 3 activations")
-EXPLANATION = ("theorems (all call trees): the event sequence emitted per the placement rules parses as a Dyck word "
+        "non-trivial = the executed call tree has >= 3 activations.  family 2 (kinds): generated modules holding "
+        "code objects of every kind that emits trace events (def, closure, lambda, instance/static/class method, "
+        "cdef-class method, cdef function returning object/void/C int, cpdef called directly and through its "
+        "Python wrapper, generator, yield-from delegator, coroutine with suspending and non-suspending await, "
+        "async generator under async for, generator expression consumed by for/sum/tuple/min/max/frozenset and "
+        "inlined into any/all/sorted/list/set/dict/str.join, comprehensions, class bodies, with blocks) with "
+        "bodies from the statement language of M_TraceGen.v, leaving by fall-off, return, return inside "
+        "try/finally and with, raise, raise caught by the caller, StopIteration, close()/GeneratorExit, "
+        "throw(); every branch/loop count/raise decision is read from a random tape; one case = (module, entry, "
+        "tape, build variant, hook); plus one static case per generated C function (layout of the trace macros)")
+EXPLANATION = ("theorems (code generation level, M_TraceGen.v): for EVERY program (list of functions of kind FuncDefNode-path "
+               "/ GeneratorBodyDefNode-path incl. inlined generator expressions, bodies over call/raise/return/yield/if/"
+               "for-else/try-except/try-finally) and EVERY execution (oracle of all call, branch, iterator and resume "
+               "outcomes; any nesting of activations) the emitted event word is a Dyck word with matching ids, empty "
+               "stack at the end, one start and one end per activation/generator segment, nesting = execution tree "
+               "(C45_program_events_balanced), provided the fall-off guard holds for every kind - and it is necessary "
+               "for every kind (C45_falloff_guard_necessary; the seeded `not is_inlined` guard refuted on "
+               "list(genexpr)); the is_terminator flag is sound (C45_terminator_sound); two finding classes excluded "
+               "as-is and covered by the repaired variants.  theorems (all call trees, M_Trace.v): "
+               "the event sequence emitted per the placement rules parses as a Dyck word "
                "with matching function ids whose nesting IS the call tree, one start and one end per activation / "
                "generator segment, line and raise events only inside their own activation, equal to CPython's "
                "sequence (legacy tool; sys.monitoring up to PY_THROW->PY_RESUME) when no generator is closed "
                "unstarted; all of it for code without `return` inside try/finally (refuted with it: finding). "
-               "partial: the call tree of a program comes from the Python evaluator in props/C45.py (validated "
+               "partial: yield-from / await / async-for / with are desugared by the harness into the model's "
+               "statements (call + conditional yield; call + try/except/finally), not modelled as own constructs; "
+               "break/continue/while and nogil/prange functions are outside the language; the sys.settrace TypeError of "
+               "a cpdef function entered through its wrapper is registered, not modelled; "
+               "the call tree of a program comes from the Python evaluator in props/C45.py (validated "
                "against CPython's own events on every case, not proved); the sys.monitoring implementation "
                "(CPython >= 3.13) is modelled from the source but cannot be executed on this box (3.12); line "
                "events are only checked for membership/nesting, their exact sequence is not modelled.")
 LEVEL_TEXT = EXPLANATION
-TRUSTED = ["evaluator program -> call tree in props/C45.py (cross-checked against CPython's events per case)",
+TRUSTED = ["evaluator program -> call tree in props/C45.py and module+tape -> execution tree/oracles in "
+           "props/C45_kinds.py (cross-checked against CPython's events per case)",
+           "every goto to a function's error label happens with an exception set (C-API contract of the called "
+           "helpers; the generator error path is conditional on PyErr_Occurred)",
            "CPython 3.12 sys.setprofile/sys.settrace/sys.monitoring as the oracle for the event order",
            "sys.monitoring (3.13+) variant of Profile.c: read, modelled, not executed"]
 ASSUMPTIONS = ["hooks are installed before the traced call and removed after it (not from inside a traced function)",
@@ -38,6 +71,7 @@ ASSUMPTIONS = ["hooks are installed before the traced call and removed after it 
                "CPython 3.12: CYTHON_USE_SYS_MONITORING=0, compiled code reports through c_profilefunc/c_tracefunc"]
 
 FX_RET = os.environ.get("C45_FX_RET", "0") == "1"     # flip default to "1" after the proposed fix lands
+FX_WRAP = os.environ.get("C45_FX_WRAP", "0") == "1"   # same for proposed_fixes/C45-cpdef_wrapper_*.diff
 
 # ------------------------------------------------------------------ program generator
 # statements: ('call', j) ('trycall', j) ('raise',) ('return',) ('yield',)
@@ -705,21 +739,49 @@ def make_programs(ctx, n_plain, n_early):
     return progs
 
 
+def run_kinds(ctx, idx, seed, quick):
+    with _LOCK:
+        model = ctx.model("trace")
+    if quick:
+        C45_kinds.check_kinds(ctx, cybuild, model, seed, "_%d" % idx, 30, FX_RET, FX_WRAP, _LOCK, n_mid=5, n_gen=2)
+    else:
+        C45_kinds.check_kinds(ctx, cybuild, model, seed, "_%d" % idx, 250, FX_RET, FX_WRAP, _LOCK, n_mid=14, n_gen=6)
+
+
 def run(ctx):
     quick = ctx.tier == "quick"
-    progs = make_programs(ctx, 11 if quick else 110, 3 if quick else 30)
-    nchunk = 2 if quick else 8
+    progs = make_programs(ctx, 5 if quick else 110, 2 if quick else 30)
+    nchunk = 1 if quick else 8
     chunks = [progs[i::nchunk] for i in range(nchunk)]
+    seeds = [ctx.rng.randrange(1 << 30) for _ in range(1 if quick else 6)]
+    jobs = [("tree", k, c) for k, c in enumerate(chunks)] + [("kinds", k, sd) for k, sd in enumerate(seeds)]
+    jobs.sort(key=lambda j: j[1])
+
+    def one(j):
+        if j[0] == "tree":
+            check_programs(ctx, j[2], True, "_%d" % j[1])
+        else:
+            run_kinds(ctx, j[1], j[2], quick)
     import concurrent.futures as cf
-    with cf.ThreadPoolExecutor(max_workers=4) as ex:
-        list(ex.map(lambda kc: check_programs(ctx, kc[1], True, "_%d" % kc[0]), enumerate(chunks)))
+    with cf.ThreadPoolExecutor(max_workers=2 if quick else 4) as ex:
+        list(ex.map(one, jobs))
     ctx.note("documented differences to CPython: no c_call/c_return, no 'exception' trace events, return/call "
              "line numbers = def line without linetrace, close() of a never-started generator reports one "
-             "call/return pair, sys.monitoring tools see nothing on CPython < 3.13")
+             "call/return pair, sys.monitoring tools see nothing on CPython < 3.13; an inlined generator expression "
+             "is ONE activation of its code object (CPython: one per item), a yield-from/await delegator is not "
+             "re-entered while its delegate runs (CPython re-enters it per item), class bodies are no code objects")
 
 
 def replay(ctx, obj):
     inp = obj["input"]
+    if inp.get("family") == "kinds":
+        with _LOCK:
+            model = ctx.model("trace")
+        C45_kinds.check_kinds(ctx, cybuild, model, inp["module_seed"], "_r", 0, FX_RET, FX_WRAP, _LOCK,
+                              n_mid=inp["n_mid"], n_gen=inp["n_gen"], only=[(inp["entry"], inp["tape"])])
+        print("replayed module/tape; failures:", json.dumps(ctx.prop_failures)[:2000],
+              "breaks:", json.dumps(ctx.corr_breaks)[:2000])
+        return
     p = inp["program"]
     def tup_block(b):
         return [tuple(tup_block(x) if isinstance(x, list) else x for x in s) for s in b]
